@@ -20,7 +20,9 @@ import (
 	"fmt"
 	"hash/fnv"
 	"math/rand"
+	"os"
 	"runtime"
+	"runtime/pprof"
 	"sort"
 	"sync"
 	"sync/atomic"
@@ -89,19 +91,41 @@ func runRaceCase(c *Case) string {
 	h.Write([]byte(sc.name))
 	r := rand.New(rand.NewSource(seed*1000003 + int64(h.Sum64()&0xffffff)))
 	done := make(chan struct{})
+	var completed, panics int64
+	var first atomic.Value
 	go func() {
-		defer func() {
-			recover() // a panic of the library under concurrent use is C06/C07's business, not a race report
-			close(done)
-		}()
-		sc.run(r, rounds)
+		defer close(done)
+		t0 := time.Now()
+		for i := 0; i < rounds; i++ {
+			if time.Since(t0) > 10*time.Second { // time budget of one scenario; the rounds done are reported
+				break
+			}
+			func() {
+				defer func() {
+					// a panic of the library under concurrent use is C06/C07's business, not a race
+					// report: counted and printed, the next round goes on
+					if p := recover(); p != nil {
+						if atomic.AddInt64(&panics, 1) == 1 {
+							first.Store(fmt.Sprint(p))
+						}
+					}
+				}()
+				sc.run(r, 1)
+			}()
+			atomic.AddInt64(&completed, 1)
+		}
 	}()
+	res := "ok"
 	select {
 	case <-done:
-		return "res " + c.id + " ok"
-	case <-time.After(15 * time.Second):
-		return "res " + c.id + " harness-timeout"
+	case <-time.After(19 * time.Second): // a round that does not come back
+		res = "harness-timeout"
+		fmt.Fprintf(os.Stderr, "race-scenario %s: a round did not come back; goroutines:\n", sc.name)
+		pprof.Lookup("goroutine").WriteTo(os.Stderr, 1)
 	}
+	msg, _ := first.Load().(string)
+	fmt.Fprintf(os.Stderr, "race-scenario %s rounds=%d completed=%d panics=%d first=%q\n", sc.name, rounds, atomic.LoadInt64(&completed), atomic.LoadInt64(&panics), msg)
+	return "res " + c.id + " " + res
 }
 
 // ---------------------------------------------------------------- helpers (no shared plain state)
@@ -489,7 +513,8 @@ func raceSc_groupByTeardown(r *rand.Rand, rounds int) {
 	})
 }
 
-// one MergeMapI pipeline subscribed from two goroutines: the index variable is shared (C12)
+// one MergeMapI pipeline subscribed from two goroutines (the index variable was shared between
+// subscriptions until commit 11bf135 of the repository: C12, and a data race here)
 func raceSc_mergeMapSharedIndex(r *rand.Rand, rounds int) {
 	for i := 0; i < rounds; i++ {
 		p := ro.Pipe1(ro.Just(1, 2, 3, 4), ro.MergeMapI(func(v int, idx int64) ro.Observable[int] { return ro.Just(v) }))
@@ -501,7 +526,8 @@ func raceSc_mergeMapSharedIndex(r *rand.Rand, rounds int) {
 }
 
 // one OnErrorResumeNextWith operator value applied in one goroutine while a pipeline built from
-// it earlier is subscribed in another (C12: the captured slice is rewritten per application)
+// it earlier is subscribed in another (until commit fd0e106 the captured slice was rewritten per
+// application: C12, and a data race here)
 func raceSc_onErrorResumeNextReapply(r *rand.Rand, rounds int) {
 	for i := 0; i < rounds; i++ {
 		op := ro.OnErrorResumeNextWith(ro.Just(7))
@@ -758,35 +784,35 @@ func raceSc_intervalTimer(r *rand.Rand, rounds int) {
 }
 
 func init() {
-	registerRaceScenario("subscription", 150, raceSc_subscription)
-	registerRaceScenario("safeSubscriber", 120, raceSc_safeSubscriber)
-	registerRaceScenario("safeObservable", 100, raceSc_safeObservable)
-	registerRaceScenario("subjectPublish", 100, raceSc_subjectPublish)
-	registerRaceScenario("subjectBehavior", 100, raceSc_subjectBehavior)
-	registerRaceScenario("subjectReplay", 100, raceSc_subjectReplay)
-	registerRaceScenario("subjectAsync", 100, raceSc_subjectAsync)
-	registerRaceScenario("subjectUnicast", 100, raceSc_subjectUnicast)
-	registerRaceScenario("connectable", 150, raceSc_connectable)
-	registerRaceScenario("connectableNoReset", 150, raceSc_connectableNoReset)
-	registerRaceScenario("connectableSyncSource", 300, raceSc_connectableSyncSource)
-	registerRaceScenario("share", 100, raceSc_share)
-	registerRaceScenario("shareAsyncTerminal", 300, raceSc_shareAsyncTerminal)
-	registerRaceScenario("shareReplay", 80, raceSc_shareReplay)
-	registerRaceScenario("bufferWithCountTeardown", 100, raceSc_bufferWithCountTeardown)
-	registerRaceScenario("groupByTeardown", 100, raceSc_groupByTeardown)
-	registerRaceScenario("mergeMapSharedIndex", 100, raceSc_mergeMapSharedIndex)
-	registerRaceScenario("onErrorResumeNextReapply", 100, raceSc_onErrorResumeNextReapply)
+	registerRaceScenario("subscription", 10000, raceSc_subscription)
+	registerRaceScenario("safeSubscriber", 7500, raceSc_safeSubscriber)
+	registerRaceScenario("safeObservable", 7500, raceSc_safeObservable)
+	registerRaceScenario("subjectPublish", 7500, raceSc_subjectPublish)
+	registerRaceScenario("subjectBehavior", 7500, raceSc_subjectBehavior)
+	registerRaceScenario("subjectReplay", 7500, raceSc_subjectReplay)
+	registerRaceScenario("subjectAsync", 7500, raceSc_subjectAsync)
+	registerRaceScenario("subjectUnicast", 7500, raceSc_subjectUnicast)
+	registerRaceScenario("connectable", 7500, raceSc_connectable)
+	registerRaceScenario("connectableNoReset", 7500, raceSc_connectableNoReset)
+	registerRaceScenario("connectableSyncSource", 7500, raceSc_connectableSyncSource)
+	registerRaceScenario("share", 7500, raceSc_share)
+	registerRaceScenario("shareAsyncTerminal", 10000, raceSc_shareAsyncTerminal)
+	registerRaceScenario("shareReplay", 5000, raceSc_shareReplay)
+	registerRaceScenario("bufferWithCountTeardown", 5000, raceSc_bufferWithCountTeardown)
+	registerRaceScenario("groupByTeardown", 300, raceSc_groupByTeardown)
+	registerRaceScenario("mergeMapSharedIndex", 2500, raceSc_mergeMapSharedIndex)
+	registerRaceScenario("onErrorResumeNextReapply", 2500, raceSc_onErrorResumeNextReapply)
 	registerRaceScenario("zip", 80, raceSc_zip)
-	registerRaceScenario("combineLatest", 80, raceSc_combineLatest)
-	registerRaceScenario("merge", 80, raceSc_merge)
-	registerRaceScenario("race", 80, raceSc_race)
-	registerRaceScenario("bufferWhen", 60, raceSc_bufferWhen)
-	registerRaceScenario("windowWhen", 60, raceSc_windowWhen)
-	registerRaceScenario("sampleThrottle", 60, raceSc_sampleThrottle)
-	registerRaceScenario("takeSkipUntil", 60, raceSc_takeSkipUntil)
-	registerRaceScenario("delay", 40, raceSc_delay)
-	registerRaceScenario("timeout", 40, raceSc_timeout)
-	registerRaceScenario("observeOn", 60, raceSc_observeOn)
-	registerRaceScenario("toChannel", 60, raceSc_toChannel)
-	registerRaceScenario("intervalTimer", 30, raceSc_intervalTimer)
+	registerRaceScenario("combineLatest", 5000, raceSc_combineLatest)
+	registerRaceScenario("merge", 5000, raceSc_merge)
+	registerRaceScenario("race", 5000, raceSc_race)
+	registerRaceScenario("bufferWhen", 4000, raceSc_bufferWhen)
+	registerRaceScenario("windowWhen", 4000, raceSc_windowWhen)
+	registerRaceScenario("sampleThrottle", 5000, raceSc_sampleThrottle)
+	registerRaceScenario("takeSkipUntil", 4000, raceSc_takeSkipUntil)
+	registerRaceScenario("delay", 400, raceSc_delay)
+	registerRaceScenario("timeout", 400, raceSc_timeout)
+	registerRaceScenario("observeOn", 4000, raceSc_observeOn)
+	registerRaceScenario("toChannel", 150, raceSc_toChannel)
+	registerRaceScenario("intervalTimer", 200, raceSc_intervalTimer)
 }
